@@ -128,7 +128,9 @@ def for_file_post(self, path, path_maker_type, volume_top_dir, result):
                 r(result), r(ent), r(path)))
     else:
         vol = volume_top_dir
-        if ent == vol or ent.startswith(vol.rstrip('/') + '/'):
+        # (the volume's top directory itself lives in its PARENT directory,
+        # which is outside the volume: no relative form exists for it)
+        if ent.startswith(vol.rstrip('/') + '/'):
             if result.startswith('/'):
                 SINK.fail('for_file', 'absolute Path inside the volume: %s' % r(result))
             elif '..' in result.split('/'):
